@@ -4,7 +4,7 @@
    slotted() was applied, the flags, and what was observed afterwards. *)
 From Coq Require Import List String Bool Arith PeanoNat.
 Import ListNotations.
-Require Import TL.Model.Slotted.
+Require Import TL.Model.Slotted TL.Model.SlottedState.
 
 Fixpoint list_eqb {A} (e : A -> A -> bool) (a b : list A) : bool :=
   match a, b with [] , [] => true | x :: r, y :: t => e x y && list_eqb e r t | _, _ => false end.
@@ -83,3 +83,34 @@ Definition explains (l : list step) : list bool :=
         {| v_release := true; v_skip_provided := false; v_inherited_hooks := false |};
         {| v_release := false; v_skip_provided := true; v_inherited_hooks := false |};
         {| v_release := false; v_skip_provided := false; v_inherited_hooks := true |} ].
+
+(* ---- _slots_setstate called directly on a blank instance of a frozen slotted class ---- *)
+Inductive skind := SKOk | SKAttr | SKType | SKOther.
+Definition skind_eqb (a b : skind) : bool :=
+  match a, b with SKOk, SKOk | SKAttr, SKAttr | SKType, SKType | SKOther, SKOther => true | _, _ => false end.
+(* member slot names of the class, has an instance __dict__, the state handed over,
+   observed: outcome, slot values, vars() *)
+Definition ss_case := (list attr * bool * pstate * skind * store * store)%type.
+Definition ss_case_ok (c : ss_case) : bool :=
+  match c with (names, has_dict, st, k, oslots, odict) =>
+    match slots_setstate {| i_slotnames := names; i_slots := []; i_dict := if has_dict then Some [] else None |} st with
+    | SOk r => skind_eqb k SKOk && same_set entry_eqb (i_slots r) oslots
+               && same_set entry_eqb (match i_dict r with Some d => d | None => [] end) odict
+    | SRaise SAttribute => skind_eqb k SKAttr
+    | SRaise SType => skind_eqb k SKType
+    end
+  end.
+
+(* ---- the object.__getstate__ contract, sampled against the interpreter ---------------- *)
+Definition store_eqb (a b : store) : bool := same_set entry_eqb a b.
+Definition ostore_eqb (a b : option store) : bool :=
+  match a, b with Some x, Some y => store_eqb x y | None, None => true | _, _ => false end.
+Definition pstate_eqb (a b : pstate) : bool :=
+  match a, b with
+  | SNone, SNone => true
+  | SDict x, SDict y => store_eqb x y
+  | SSeq x, SSeq y => list_eqb ostore_eqb x y
+  | _, _ => false
+  end.
+Definition gs_case := (inst * pstate)%type.
+Definition gs_case_ok (c : gs_case) : bool := pstate_eqb (getstate (fst c)) (snd c).
